@@ -28,7 +28,16 @@ inductive Res where
   | mon (asset : Nat) (amt : Int)
   deriving Repr, DecidableEq, Inhabited
 
+/-- Decoded instructions: OP_APUSH carries its little-endian uint16 operand. -/
+inductive Instr where
+  | apush (addr : Nat)
+  | op (code : Nat)
+  deriving Repr, DecidableEq, Inhabited
+
 structure Program where
+  /-- the emitted instructions -/
+  code : List Instr
+  /-- their byte encoding (`Program.Instructions`) -/
   instrs : List Nat
   res : List Res
   /-- `NeededBalances`: (account address, monetary/asset address), no duplicates -/
@@ -62,44 +71,58 @@ def OP_TX_META := 23
 def OP_ACCOUNT_META := 24
 def OP_SAVE := 25
 
-/-- State of `parseVisitor`. -/
+/-- `PushAddress`: OP_APUSH + little-endian uint16; other opcodes are one byte. -/
+def encode : List Instr → List Nat
+  | [] => []
+  | .apush a :: is => OP_APUSH :: (a % 256) :: (a / 256 % 256) :: encode is
+  | .op c :: is => c :: encode is
+
+/-- State of `parseVisitor` (explicit state passing: every compile function maps a
+    state to a result and a new state, or an error). -/
 structure CS where
-  instrs : Array Nat := #[]
-  res : Array Res := #[]
+  code : List Instr := []
+  res : List Res := []
   needed : List (Nat × Nat) := []
   vars : List (String × Nat) := []
 
-abbrev CM := StateT CS (Except String)
+abbrev CR (α : Type) := Except String (α × CS)
 
-def emit (b : Nat) : CM Unit := modify fun s => { s with instrs := s.instrs.push b }
+/-- Unit-valued compile steps. -/
+abbrev Act := CS → Except String CS
 
-/-- `PushAddress`: OP_APUSH + little-endian uint16. -/
-def apush (a : Nat) : CM Unit := do
-  emit OP_APUSH; emit (a % 256); emit (a / 256 % 256)
+def emitOp (c : Nat) : Act := fun cs => .ok { cs with code := cs.code ++ [.op c] }
+def emitPush (a : Nat) : Act := fun cs => .ok { cs with code := cs.code ++ [.apush a] }
+
+/-- Sequencing of steps. -/
+def seqA : List Act → Act
+  | [], cs => .ok cs
+  | a :: as, cs =>
+    match a cs with
+    | .error e => .error e
+    | .ok cs1 => seqA as cs1
 
 def findIdx? {α} (p : α → Bool) (xs : List α) : Option Nat :=
-  let i := xs.findIdx p
-  if i < xs.length then some i else none
+  if xs.findIdx p < xs.length then some (xs.findIdx p) else none
 
 /-- `AllocateResource` for a non-constant resource: always appended. -/
-def allocRes (r : Res) : CM Nat := do
-  let s ← get
-  if s.res.size ≥ 65536 then throw "number of unique constants exceeded 65536"
-  set { s with res := s.res.push r }
-  pure s.res.size
+def allocRes (r : Res) (cs : CS) : CR Nat :=
+  if cs.res.length ≥ 65536 then .error "number of unique constants exceeded 65536"
+  else .ok (cs.res.length, { cs with res := cs.res ++ [r] })
 
 /-- `AllocateResource` for a constant: `findConstant` (`ValueEquals`) first. -/
-def allocConst (c : CValue) : CM Nat := do
-  let s ← get
-  match findIdx? (fun r => r == Res.const c) s.res.toList with
-  | some i => pure i
-  | none => allocRes (.const c)
+def allocConst (c : CValue) (cs : CS) : CR Nat :=
+  match findIdx? (fun r => r == Res.const c) cs.res with
+  | some i => .ok (i, cs)
+  | none => allocRes (.const c) cs
 
-def pushInteger (n : Int) : CM Unit := do
-  let a ← allocConst (.number n); apush a
+def pushConst (c : CValue) : Act := fun cs =>
+  match allocConst c cs with
+  | .error e => .error e
+  | .ok (a, cs1) => emitPush a cs1
 
-def bump (n : Int) : CM Unit := do
-  pushInteger n; emit OP_BUMP
+def pushInteger (n : Int) : Act := pushConst (.number n)
+
+def bump (n : Int) : Act := seqA [pushInteger n, emitOp OP_BUMP]
 
 def resTy : Res → Ty
   | .const (.account _) => .account
@@ -112,270 +135,297 @@ def resTy : Res → Ty
   | .varBalance _ _ _ => .monetary
   | .mon _ _ => .monetary
 
+/-- Emits the push of `a` when `push` is set. -/
+def pushIf (push : Bool) (a : Nat) (cs : CS) : CS :=
+  if push then { cs with code := cs.code ++ [.apush a] } else cs
+
+def opIf (push : Bool) (c : Nat) (cs : CS) : CS :=
+  if push then { cs with code := cs.code ++ [.op c] } else cs
+
 /-- `VisitExpr`: returns the type and the address `VisitExpr` returns (`none` for a
     number sum). Type errors cannot occur after `typecheck`; they are reported with
     a generic message. -/
-def cExpr : Expr → Bool → CM (Ty × Option Nat)
-  | .acct s, push => do
-    let a ← allocConst (.account s); if push then apush a
-    pure (.account, some a)
-  | .asset s, push => do
-    let a ← allocConst (.asset s); if push then apush a
-    pure (.asset, some a)
-  | .num n, push => do
-    let a ← allocConst (.number n); if push then apush a
-    pure (.number, some a)
-  | .str s, push => do
-    let a ← allocConst (.str s); if push then apush a
-    pure (.string, some a)
-  | .portion t, push => do
+def cExpr : Expr → Bool → CS → CR (Ty × Option Nat)
+  | .acct s, push, cs =>
+    match allocConst (.account s) cs with
+    | .error e => .error e
+    | .ok (a, cs1) => .ok ((.account, some a), pushIf push a cs1)
+  | .asset s, push, cs =>
+    match allocConst (.asset s) cs with
+    | .error e => .error e
+    | .ok (a, cs1) => .ok ((.asset, some a), pushIf push a cs1)
+  | .num n, push, cs =>
+    match allocConst (.number n) cs with
+    | .error e => .error e
+    | .ok (a, cs1) => .ok ((.number, some a), pushIf push a cs1)
+  | .str s, push, cs =>
+    match allocConst (.str s) cs with
+    | .error e => .error e
+    | .ok (a, cs1) => .ok ((.string, some a), pushIf push a cs1)
+  | .portion t, push, cs =>
     match parsePortionGo t with
-    | .error e => throw e
+    | .error e => .error e
     | .ok p =>
-      let a ← allocConst (.portion p); if push then apush a
-      pure (.portion, some a)
-  | .mon ae n, push => do
-    let (_, aa) ← cExpr ae false
-    match aa with
-    | none => throw "monetary literal: no asset address"
-    | some assetAddr =>
-      let s ← get
-      let a ← match findIdx? (fun r => r == Res.mon assetAddr n) s.res.toList with
-        | some i => pure i
-        | none => allocRes (.mon assetAddr n)
-      if push then apush a
-      pure (.monetary, some a)
-  | .var x, push => do
-    let s ← get
-    match s.vars.lookup x with
-    | none => throw "variable not declared"
+      match allocConst (.portion p) cs with
+      | .error e => .error e
+      | .ok (a, cs1) => .ok ((.portion, some a), pushIf push a cs1)
+  | .mon ae n, push, cs =>
+    match cExpr ae false cs with
+    | .error e => .error e
+    | .ok ((_, none), _) => .error "monetary literal: no asset address"
+    | .ok ((_, some assetAddr), cs1) =>
+      match findIdx? (fun r => r == Res.mon assetAddr n) cs1.res with
+      | some i => .ok ((.monetary, some i), pushIf push i cs1)
+      | none =>
+        match allocRes (.mon assetAddr n) cs1 with
+        | .error e => .error e
+        | .ok (a, cs2) => .ok ((.monetary, some a), pushIf push a cs2)
+  | .var x, push, cs =>
+    match cs.vars.lookup x with
+    | none => .error "variable not declared"
     | some idx =>
-      if push then apush idx
-      pure (resTy (s.res.toList.getD idx (.const (.number 0))), some idx)
-  | .add l r, push => do
-    let (lt, la) ← cExpr l push
-    let _ ← cExpr r push
-    match lt with
-    | .number => do
-      if push then emit OP_IADD
-      pure (.number, none)
-    | .monetary => do
-      if push then emit OP_MONETARY_ADD
-      pure (.monetary, la)
-    | _ => throw "arithmetic on unsupported type"
-  | .sub l r, push => do
-    let (lt, la) ← cExpr l push
-    let _ ← cExpr r push
-    match lt with
-    | .number => do
-      if push then emit OP_ISUB
-      pure (.number, none)
-    | .monetary => do
-      if push then emit OP_MONETARY_SUB
-      pure (.monetary, la)
-    | _ => throw "arithmetic on unsupported type"
+      match cs.res[idx]? with
+      | none => .error "variable resource missing"
+      | some r => .ok ((resTy r, some idx), pushIf push idx cs)
+  | .add l r, push, cs =>
+    match cExpr l push cs with
+    | .error e => .error e
+    | .ok ((lt, la), cs1) =>
+      match cExpr r push cs1 with
+      | .error e => .error e
+      | .ok (_, cs2) =>
+        match lt with
+        | .number => .ok ((.number, none), opIf push OP_IADD cs2)
+        | .monetary => .ok ((.monetary, la), opIf push OP_MONETARY_ADD cs2)
+        | _ => .error "arithmetic on unsupported type"
+  | .sub l r, push, cs =>
+    match cExpr l push cs with
+    | .error e => .error e
+    | .ok ((lt, la), cs1) =>
+      match cExpr r push cs1 with
+      | .error e => .error e
+      | .ok (_, cs2) =>
+        match lt with
+        | .number => .ok ((.number, none), opIf push OP_ISUB cs2)
+        | .monetary => .ok ((.monetary, la), opIf push OP_MONETARY_SUB cs2)
+        | _ => .error "arithmetic on unsupported type"
 
-def cExprAddr (e : Expr) (push : Bool) : CM Nat := do
-  match (← cExpr e push).2 with
-  | some a => pure a
-  | none => throw "expression has no address"
+/-- The expression's code (value pushed). -/
+def pushExpr (e : Expr) : Act := fun cs =>
+  match cExpr e true cs with
+  | .error err => .error err
+  | .ok (_, cs1) => .ok cs1
+
+def cExprAddr (e : Expr) (cs : CS) : CR Nat :=
+  match cExpr e false cs with
+  | .error err => .error err
+  | .ok ((_, some a), cs1) => .ok (a, cs1)
+  | .ok ((_, none), _) => .error "expression has no address"
+
+/-- `VisitExpr(e, false)` followed by `PushAddress(*addr)`. -/
+def pushAddrOf (e : Expr) : Act := fun cs =>
+  match cExprAddr e cs with
+  | .error err => .error err
+  | .ok (a, cs1) => emitPush a cs1
 
 /-- `isWorld`: the resource is the constant account `world`. -/
-def isWorldAddr (a : Nat) : CM Bool := do
-  let s ← get
-  pure (s.res.toList.getD a (.const (.number 0)) == Res.const (.account "world"))
+def isWorldAddr (a : Nat) (cs : CS) : Bool :=
+  cs.res[a]? == some (Res.const (.account "world"))
 
 /-- `TakeFromSource`. -/
-def cTakeFromSource (fb : Option Nat) : CM Unit := do
+def cTakeFromSource (fb : Option Nat) : Act :=
   match fb with
-  | none => emit OP_TAKE; bump 1; emit OP_REPAY
-  | some f =>
-    emit OP_TAKE_MAX; bump 1; emit OP_REPAY
-    apush f; bump 2; emit OP_TAKE_ALWAYS; pushInteger 2; emit OP_FUNDING_ASSEMBLE
+  | none => seqA [emitOp OP_TAKE, bump 1, emitOp OP_REPAY]
+  | some f => seqA [emitOp OP_TAKE_MAX, bump 1, emitOp OP_REPAY, emitPush f, bump 2,
+      emitOp OP_TAKE_ALWAYS, pushInteger 2, emitOp OP_FUNDING_ASSEMBLE]
 
 mutual
   /-- `VisitSource`: (needed accounts, fallback). -/
-  def cSource (pushAsset : CM Unit) : Source → CM (List Nat × Option Nat)
-    | .account e od => do
-      let acc ← cExprAddr e true
-      let world ← isWorldAddr acc
-      match od with
-      | .none =>
-        pushAsset; pushInteger 0; emit OP_MONETARY_NEW
-        emit (if world then OP_TAKE_ALWAYS else OP_TAKE_ALL)
-        pure (if world then [] else [acc], if world then some acc else none)
-      | .upTo x =>
-        let _ ← cExpr x true
-        -- commit 7a34851: the overdraft must be in the asset being sent
-        pushAsset; pushInteger 0; emit OP_MONETARY_NEW; emit OP_MONETARY_ADD
-        emit OP_TAKE_ALL
-        pure ([acc], none)
-      | .unbounded =>
-        pushAsset; pushInteger 0; emit OP_MONETARY_NEW; emit OP_TAKE_ALWAYS
-        pure ([], some acc)
-    | .maxed m s => do
-      let (accs, subfb) ← cSource pushAsset s
-      let _ ← cExpr m true
-      emit OP_TAKE_MAX; bump 1; emit OP_REPAY
-      match subfb with
-      | some f => apush f; bump 2; emit OP_TAKE_ALWAYS; pushInteger 2; emit OP_FUNDING_ASSEMBLE
-      | none => bump 1; emit OP_DELETE
-      pure (accs, none)
-    | .inorder ss => do
-      let (accs, fb) ← cSources pushAsset ss
-      pushInteger ss.length; emit OP_FUNDING_ASSEMBLE
-      pure (accs, fb)
-  def cSources (pushAsset : CM Unit) : SourceList → CM (List Nat × Option Nat)
-    | .nil => pure ([], none)
-    | .cons s rest => do
-      let (a1, f1) ← cSource pushAsset s
-      match rest with
-      | .nil => pure (a1, f1)
-      | .cons _ _ =>
-        let (a2, f2) ← cSources pushAsset rest
-        pure (a1 ++ a2, f2)
+  def cSource (pushAsset : Act) : Source → CS → CR (List Nat × Option Nat)
+    | .account e od, cs =>
+      match cExpr e true cs with
+      | .error err => .error err
+      | .ok ((_, none), _) => .error "expression has no address"
+      | .ok ((_, some acc), cs1) =>
+        let world := isWorldAddr acc cs1
+        match od with
+        | .none =>
+          match seqA [pushAsset, pushInteger 0, emitOp OP_MONETARY_NEW,
+              emitOp (if world then OP_TAKE_ALWAYS else OP_TAKE_ALL)] cs1 with
+          | .error err => .error err
+          | .ok cs2 => .ok ((if world then [] else [acc], if world then some acc else none), cs2)
+        | .upTo x =>
+          -- commit 7a34851: the overdraft must be in the asset being sent
+          match seqA [pushExpr x, pushAsset, pushInteger 0, emitOp OP_MONETARY_NEW, emitOp OP_MONETARY_ADD,
+              emitOp OP_TAKE_ALL] cs1 with
+          | .error err => .error err
+          | .ok cs2 => .ok (([acc], none), cs2)
+        | .unbounded =>
+          match seqA [pushAsset, pushInteger 0, emitOp OP_MONETARY_NEW, emitOp OP_TAKE_ALWAYS] cs1 with
+          | .error err => .error err
+          | .ok cs2 => .ok (([], some acc), cs2)
+    | .maxed m s, cs =>
+      match cSource pushAsset s cs with
+      | .error err => .error err
+      | .ok ((accs, subfb), cs1) =>
+        let tail : Act :=
+          match subfb with
+          | some f => seqA [emitPush f, bump 2, emitOp OP_TAKE_ALWAYS, pushInteger 2, emitOp OP_FUNDING_ASSEMBLE]
+          | none => seqA [bump 1, emitOp OP_DELETE]
+        match seqA [pushExpr m, emitOp OP_TAKE_MAX, bump 1, emitOp OP_REPAY, tail] cs1 with
+        | .error err => .error err
+        | .ok cs2 => .ok ((accs, none), cs2)
+    | .inorder ss, cs =>
+      match cSources pushAsset ss cs with
+      | .error err => .error err
+      | .ok ((accs, fb), cs1) =>
+        match seqA [pushInteger ss.length, emitOp OP_FUNDING_ASSEMBLE] cs1 with
+        | .error err => .error err
+        | .ok cs2 => .ok ((accs, fb), cs2)
+  def cSources (pushAsset : Act) : SourceList → CS → CR (List Nat × Option Nat)
+    | .nil, cs => .ok (([], none), cs)
+    | .cons s rest, cs =>
+      match cSource pushAsset s cs with
+      | .error err => .error err
+      | .ok ((a1, f1), cs1) =>
+        match rest with
+        | .nil => .ok ((a1, f1), cs1)
+        | .cons _ _ =>
+          match cSources pushAsset rest cs1 with
+          | .error err => .error err
+          | .ok ((a2, f2), cs2) => .ok ((a1 ++ a2, f2), cs2)
 end
 
 def addNeeded (addr : Nat) (nd : List (Nat × Nat)) (a : Nat) : List (Nat × Nat) :=
   if nd.contains (a, addr) then nd else nd ++ [(a, addr)]
 
-def setNeeded (accs : List Nat) (addr : Nat) : CM Unit :=
-  modify fun s => { s with needed := accs.foldl (addNeeded addr) s.needed }
+def setNeeded (accs : List Nat) (addr : Nat) : Act := fun cs =>
+  .ok { cs with needed := accs.foldl (addNeeded addr) cs.needed }
+
+/-- One portion of `VisitAllotment`. -/
+def cPortion : PortionE → Act
+  | .lit t => fun cs =>
+    match parsePortionGo t with
+    | .error e => .error e
+    | .ok v => pushConst (.portion v) cs
+  | .var x => fun cs =>
+    match cs.vars.lookup x with
+    | none => .error "variable not declared"
+    | some idx => emitPush idx cs
+  | .remaining => pushConst (.portion .remaining)
 
 /-- `VisitAllotment`: portions pushed from the last to the first. -/
-def cAllotment (ps : List PortionE) : CM Unit := do
-  for p in ps.reverse do
-    match p with
-    | .lit t =>
-      match parsePortionGo t with
-      | .error e => throw e
-      | .ok v => let a ← allocConst (.portion v); apush a
-    | .var x =>
-      let s ← get
-      match s.vars.lookup x with
-      | none => throw "variable not declared"
-      | some idx => apush idx
-    | .remaining => let a ← allocConst (.portion .remaining); apush a
-  pushInteger ps.length
-  emit OP_MAKE_ALLOTMENT
+def cAllotment (ps : List PortionE) : Act :=
+  seqA (ps.reverse.map cPortion ++ [pushInteger ps.length, emitOp OP_MAKE_ALLOTMENT])
 
 /-- The per-source loop of a source allotment; `i` is the 1-based index. -/
-def cAllotSources (pushAsset : CM Unit) (monAddr : Nat) : AllotSrcList → Nat → CM Unit
-  | .nil, _ => pure ()
-  | .cons _ s rest, i => do
-    let (accs, fb) ← cSource pushAsset s
-    setNeeded accs monAddr
-    bump i
-    cTakeFromSource fb
-    cAllotSources pushAsset monAddr rest (i + 1)
+def cAllotSources (pushAsset : Act) (monAddr : Nat) : AllotSrcList → Nat → Act
+  | .nil, _ => fun cs => .ok cs
+  | .cons _ s rest, i => fun cs =>
+    match cSource pushAsset s cs with
+    | .error err => .error err
+    | .ok ((accs, fb), cs1) =>
+      seqA [setNeeded accs monAddr, bump i, cTakeFromSource fb,
+        cAllotSources pushAsset monAddr rest (i + 1)] cs1
 
 mutual
   /-- `VisitDestinationRecursive`. -/
-  def cDest : Dest → CM Unit
-    | .account e => do
-      emit OP_FUNDING_SUM; emit OP_TAKE
-      let _ ← cExpr e true
-      emit OP_SEND
-    | .inorder items rem => do
-      emit OP_FUNDING_SUM; emit OP_ASSET; pushInteger 0; emit OP_MONETARY_NEW; bump 1
-      cInOrder items
-      emit OP_FUNDING_REVERSE; bump 1; emit OP_TAKE; emit OP_FUNDING_REVERSE; bump 1
-      emit OP_FUNDING_REVERSE
-      cKD rem
-      bump 1; pushInteger 2; emit OP_FUNDING_ASSEMBLE
-    | .allot items => do
-      emit OP_FUNDING_SUM
-      cAllotment items.portions
-      emit OP_ALLOC
-      bump items.length
-      cAllotDst items
-  def cKD : KeptOrDest → CM Unit
-    | .kept => pure ()
+  def cDest : Dest → Act
+    | .account e => seqA [emitOp OP_FUNDING_SUM, emitOp OP_TAKE, pushExpr e, emitOp OP_SEND]
+    | .inorder items rem =>
+      seqA [emitOp OP_FUNDING_SUM, emitOp OP_ASSET, pushInteger 0, emitOp OP_MONETARY_NEW, bump 1,
+        cInOrder items,
+        emitOp OP_FUNDING_REVERSE, bump 1, emitOp OP_TAKE, emitOp OP_FUNDING_REVERSE, bump 1,
+        emitOp OP_FUNDING_REVERSE,
+        cKD rem,
+        bump 1, pushInteger 2, emitOp OP_FUNDING_ASSEMBLE]
+    | .allot items =>
+      seqA [emitOp OP_FUNDING_SUM, cAllotment items.portions, emitOp OP_ALLOC, bump items.length,
+        cAllotDst items]
+  def cKD : KeptOrDest → Act
+    | .kept => fun cs => .ok cs
     | .to d => cDest d
-  def cInOrder : InOrderDstList → CM Unit
-    | .nil => pure ()
-    | .cons m d rest => do
-      let _ ← cExpr m true
-      emit OP_TAKE_MAX; bump 2; emit OP_DELETE
-      cKD d
-      emit OP_FUNDING_SUM; bump 3; emit OP_MONETARY_ADD; bump 1; bump 2; pushInteger 2
-      emit OP_FUNDING_ASSEMBLE
-      cInOrder rest
-  def cAllotDst : AllotDstList → CM Unit
-    | .nil => pure ()
-    | .cons _ d rest => do
-      bump 1; emit OP_TAKE
-      cKD d
-      bump 1; pushInteger 2; emit OP_FUNDING_ASSEMBLE
-      cAllotDst rest
+  def cInOrder : InOrderDstList → Act
+    | .nil => fun cs => .ok cs
+    | .cons m d rest =>
+      seqA [pushExpr m, emitOp OP_TAKE_MAX, bump 2, emitOp OP_DELETE,
+        cKD d,
+        emitOp OP_FUNDING_SUM, bump 3, emitOp OP_MONETARY_ADD, bump 1, bump 2, pushInteger 2,
+        emitOp OP_FUNDING_ASSEMBLE,
+        cInOrder rest]
+  def cAllotDst : AllotDstList → Act
+    | .nil => fun cs => .ok cs
+    | .cons _ d rest =>
+      seqA [bump 1, emitOp OP_TAKE, cKD d, bump 1, pushInteger 2, emitOp OP_FUNDING_ASSEMBLE,
+        cAllotDst rest]
 end
 
 /-- `VisitDestination`. -/
-def cDestination (d : Dest) : CM Unit := do cDest d; emit OP_REPAY
+def cDestination (d : Dest) : Act := seqA [cDest d, emitOp OP_REPAY]
 
-def cStmt : Stmt → CM Unit
-  | .print e => do let _ ← cExpr e true; emit OP_PRINT
-  | .fail => emit OP_FAIL
-  | .setTxMeta k e => do
-    let _ ← cExpr e true
-    let a ← allocConst (.str k); apush a; emit OP_TX_META
-  | .setAccountMeta acc k e => do
-    let _ ← cExpr e true
-    let a ← allocConst (.str k); apush a
-    let ac ← cExprAddr acc false; apush ac
-    emit OP_ACCOUNT_META
-  | .save mon acc => do
-    let a ← cExprAddr mon false; apush a
-    let ac ← cExprAddr acc false; apush ac
-    emit OP_SAVE
-  | .saveAll asset acc => do
-    let a ← cExprAddr asset false; apush a
-    let ac ← cExprAddr acc false; apush ac
-    emit OP_SAVE
-  | .sendAll assetE src dst => do
-    let assetAddr ← cExprAddr assetE false
-    match src with
-    | .allot _ => throw "cannot take all balance of an allotment source"
-    | .src s =>
-      let (accs, _) ← cSource (apush assetAddr) s
-      setNeeded accs assetAddr
-      cDestination dst
-  | .send mon src dst => do
-    let monAddr ← cExprAddr mon false
-    let pushAsset : CM Unit := do apush monAddr; emit OP_ASSET
-    match src with
-    | .src s =>
-      let (accs, fb) ← cSource pushAsset s
-      setNeeded accs monAddr
-      let _ ← cExpr mon true
-      cTakeFromSource fb
-    | .allot items =>
-      let _ ← cExpr mon true
-      cAllotment items.portions
-      emit OP_ALLOC
-      cAllotSources pushAsset monAddr items 1
-      pushInteger items.length
-      emit OP_FUNDING_ASSEMBLE
-    cDestination dst
+def cStmt : Stmt → Act
+  | .print e => seqA [pushExpr e, emitOp OP_PRINT]
+  | .fail => emitOp OP_FAIL
+  | .setTxMeta k e => seqA [pushExpr e, pushConst (.str k), emitOp OP_TX_META]
+  | .setAccountMeta acc k e =>
+    seqA [pushExpr e, pushConst (.str k), pushAddrOf acc, emitOp OP_ACCOUNT_META]
+  | .save mon acc => seqA [pushAddrOf mon, pushAddrOf acc, emitOp OP_SAVE]
+  | .saveAll asset acc => seqA [pushAddrOf asset, pushAddrOf acc, emitOp OP_SAVE]
+  | .sendAll assetE src dst => fun cs =>
+    match cExprAddr assetE cs with
+    | .error err => .error err
+    | .ok (assetAddr, cs1) =>
+      match src with
+      | .allot _ => .error "cannot take all balance of an allotment source"
+      | .src s =>
+        match cSource (emitPush assetAddr) s cs1 with
+        | .error err => .error err
+        | .ok ((accs, _), cs2) => seqA [setNeeded accs assetAddr, cDestination dst] cs2
+  | .send mon src dst => fun cs =>
+    match cExprAddr mon cs with
+    | .error err => .error err
+    | .ok (monAddr, cs1) =>
+      let pushAsset : Act := seqA [emitPush monAddr, emitOp OP_ASSET]
+      match src with
+      | .src s =>
+        match cSource pushAsset s cs1 with
+        | .error err => .error err
+        | .ok ((accs, fb), cs2) =>
+          seqA [setNeeded accs monAddr, pushExpr mon, cTakeFromSource fb, cDestination dst] cs2
+      | .allot items =>
+        seqA [pushExpr mon, cAllotment items.portions, emitOp OP_ALLOC,
+          cAllotSources pushAsset monAddr items 1, pushInteger items.length,
+          emitOp OP_FUNDING_ASSEMBLE, cDestination dst] cs1
 
-def cVars : List VarDecl → CM Unit
-  | [] => pure ()
-  | v :: vs => do
-    let idx ← match v.orig with
-      | .none => allocRes (.var v.ty v.name)
-      | .accountMeta acc key => do
-        let a ← cExprAddr acc false
-        allocRes (.varMeta v.ty v.name a key)
-      | .balance acc asset => do
-        let a ← cExprAddr acc false
-        let c ← cExprAddr asset false
-        allocRes (.varBalance v.name a c)
-    modify fun s => { s with vars := s.vars ++ [(v.name, idx)] }
-    cVars vs
+/-- One declaration of `VisitVars`. -/
+def cVar (v : VarDecl) (cs : CS) : CR Nat :=
+  match v.orig with
+  | .none => allocRes (.var v.ty v.name) cs
+  | .accountMeta acc key =>
+    match cExprAddr acc cs with
+    | .error err => .error err
+    | .ok (a, cs1) => allocRes (.varMeta v.ty v.name a key) cs1
+  | .balance acc asset =>
+    match cExprAddr acc cs with
+    | .error err => .error err
+    | .ok (a, cs1) =>
+      match cExprAddr asset cs1 with
+      | .error err => .error err
+      | .ok (c, cs2) => allocRes (.varBalance v.name a c) cs2
 
-def cStmts : List Stmt → CM Unit
-  | [] => pure ()
-  | s :: ss => do cStmt s; cStmts ss
+def cVars : List VarDecl → Act
+  | [], cs => .ok cs
+  | v :: vs, cs =>
+    match cVar v cs with
+    | .error err => .error err
+    | .ok (idx, cs1) => cVars vs { cs1 with vars := cs1.vars ++ [(v.name, idx)] }
+
+def cStmts : List Stmt → Act
+  | [], cs => .ok cs
+  | s :: ss, cs =>
+    match cStmt s cs with
+    | .error err => .error err
+    | .ok cs1 => cStmts ss cs1
 
 /-- `compiler.Compile` after parsing: the compiler's checks (`typecheck`), then the
     emission. -/
@@ -383,8 +433,11 @@ def compile (s : Script) : Except String Program :=
   match typecheck s with
   | .error e => .error e
   | .ok _ =>
-    match (do cVars s.vars; cStmts s.stmts : CM Unit).run {} with
+    match cVars s.vars {} with
     | .error e => .error e
-    | .ok (_, st) => .ok { instrs := st.instrs.toList, res := st.res.toList, needed := st.needed }
+    | .ok cs1 =>
+      match cStmts s.stmts cs1 with
+      | .error e => .error e
+      | .ok st => .ok { code := st.code, instrs := encode st.code, res := st.res, needed := st.needed }
 
 end Ledger.Machine
